@@ -1,0 +1,37 @@
+//go:build verif
+
+// Package witnessx makes the (doubly internal) witness constructible from a
+// simulator living in another module. Only compiled with the "verif" build tag.
+package witnessx
+
+import (
+	"net/http"
+
+	"github.com/google/certificate-transparency-go/internal/witness/api"
+	"github.com/google/certificate-transparency-go/internal/witness/cmd/witness/verifx"
+)
+
+// Witness is the real witness.
+type Witness = verifx.Witness
+
+// Opts are the real witness options.
+type Opts = verifx.Opts
+
+// CosignedSTH is the witness API's cosigned tree head.
+type CosignedSTH = api.CosignedSTH
+
+// UpdateRequest is the body of an update request.
+type UpdateRequest = api.UpdateRequest
+
+// URL path formats of the witness API.
+const (
+	HTTPGetSTH  = api.HTTPGetSTH
+	HTTPUpdate  = api.HTTPUpdate
+	HTTPGetLogs = api.HTTPGetLogs
+)
+
+// New creates a witness.
+func New(o Opts) (*Witness, error) { return verifx.New(o) }
+
+// Handler returns the witness HTTP API exactly as impl.Main wires it.
+func Handler(w *Witness) http.Handler { return verifx.Handler(w) }
